@@ -143,6 +143,9 @@ class Run:
         nick = rng.choice(live)
         if self.knobs.get('on_master_p') and rng.random() < self.knobs['on_master_p'] and self.master() in live:
             nick = self.master()
+        if self.knobs.get('off_master_p') and rng.random() < self.knobs['off_master_p']:
+            others = [n for n in live if n != self.master()]
+            nick = rng.choice(others) if others else nick
         rec = {'vt': vt(w), 'kind': kind, 'on': nick}
         strategies = gen.STARTING
         managed = [a for a, m in self.model.items() if m['managed']]
@@ -359,6 +362,14 @@ class Run:
         res = w.user_rpc(on, 'supvisors.' + kind)
         self.closing['accepted'] = res[0] == 'ok'
         self.closing['res'] = res[:2]
+        if rng.random() < self.knobs.get('second_closing_p', 0.0):
+            # a second restart / shutdown request while the first one is being carried out
+            w.run_for(rng.choice([0.0, 0.05, 0.5, 1.5, 4.0]))
+            members = [n for n in comp if w.instances[n].alive and w.instances[n].http_open]
+            if members:
+                second = {'kind': rng.choice(['restart', 'shutdown']), 'on': rng.choice(members), 'vt': vt(w)}
+                second['res'] = w.user_rpc(second['on'], 'supvisors.' + second['kind'])[:2]
+                self.closing['second'] = second
         if rng.random() < self.knobs.get('closing_crash_p', 0.25):
             others = [n for n in comp if n != master and n != on]   # the requester must live to forward the order
             if others:
